@@ -166,7 +166,9 @@ Section Run.
       rewrite rev_app_distr, replay_app. rewrite Hrep; [exact Hre|].
       rewrite Hpa, Hp in Hp'. exact Hp'.
     - simpl in H. destruct cells as [|rv cells]; [simpl in H; injection H as <-; split; [exact Hw|]; split; [exact Hsv|]; eauto|].
-      exfalso. destruct (d_tables (ms_doc st) !! t ≫= (fun tb : table => t_cols tb !! c)) as [col|]; [|discriminate].
+      exfalso. destruct (d_tables (ms_doc st) !! t) as [tb|]; [|discriminate].
+      destruct (t_cols tb !! c) as [col|]; [|discriminate].
+      destruct (bool_decide (Forall _ (rv :: cells))); [|discriminate].
       rewrite exec_all_app in H. destruct (exec_all st _) as [st1|]; [|discriminate]. simpl in H. injection H as <-.
       simpl in Hp'. apply app_eq_nil in Hp' as [_ Hx]. discriminate.
   Qed.
